@@ -6,21 +6,35 @@ truthiness and comparison with an empty byte string are integer arithmetic on th
 byte of the master stream is treated as distinct from every other one, so "delivered exactly once,
 in order, nothing lost" becomes "the emitted spans are contiguous".  The abstraction is sound only
 for code that never looks at the *content* of the data; therefore ANY content access (indexing one
-byte, iteration, find/split/startswith/..., comparison with non-empty bytes, hashing, the buffer
-protocol used by memoryview / b"".join) raises `RopeContentAccess`, which the harness does not
-catch: an unsound use shows up as a counterexample that does not replay, i.e. as a harness error.
+byte, iteration, find/split/startswith/..., comparison with non-empty bytes or another rope,
+hashing, the buffer protocol used by memoryview / C code) raises `RopeContentAccess` (b"".join on
+a rope raises TypeError), which the harness does not catch: an unsound use shows up as a
+counterexample that does not replay, i.e. as a harness error.
+
+Rope arithmetic is *fork free* under CrossHair: slice bounds are clamped with z3 if-then-else terms
+(`ite/imin/imax/clamp`), empty spans are kept instead of being dropped, `is_span` builds one
+formula.  Only `bool(rope)` (the code under test asks `if data:`) and the harness's own verdicts
+decide a branch.  `spans_of` gives the normal form (non-empty, merged spans) and does fork.
 
 Two worlds (like vlib.lift):
  * api.MODE == "sym"  (under CrossHair, and in the concrete 'sym' run of the vector validation):
-   `span(a, b)` is a Rope.
+   `span(a, b)` is a Rope.  `isinstance(rope, bytes)` is true (`__class__` / `__ch_pytype__`).
  * api.MODE == "real" (replay in a plain interpreter): `span(a, b)` is the REAL `bytes` object
    `master(a, b)`; the unmodified twisted code then runs on real bytes.  Oracles are written with
    `is_span / same / length / spans_of`, which have an exact meaning in both worlds (in the real
-   world: byte-for-byte comparison with the master stream).
+   world `is_span` and `same` are byte-for-byte comparisons with the master stream).
 
 The master stream is the function `_f(p)`: position -> byte value.  It is the identity below 256
 (so for the small positions the solver usually returns, every position has its own byte value and
 `spans_of` is exact in the real world) and a mixing function above (positions p and p + 256 differ).
+`spans_of` on real bytes searches the spans handed out since `reset()` (prefers continuing the
+current run, otherwise the longest match); it is a convenience for diagnostics -- verdicts should
+use `is_span` / `same`, which cannot be confused by equal byte values at different positions unless
+the *whole* compared strings coincide.
+
+`rope_concatenate` / `rope_lazyByteSlice` are rope-aware versions of the two content-touching
+helpers of twisted.internet.abstract; `rebound(module, name=value, ...)` rebinds module globals for
+the duration of a harness (nothing is rebound in the real world).
 """
 from vlib import api
 
